@@ -242,6 +242,35 @@ def main(ck, tier, w):
             ck.violation('; '.join(probs), {'scenario': {'coin': j[0], 'tx_counts': j[2], 'start': start, 'segwit': j[4]},
                                             'observed': r.brief(), 'tags': []})
 
+    # a block whose prev-hash names a STALE block that the index also knows at the height below: "the indexed hash of the preceding
+    # height" is the active chain's, not any header of that height
+    for coin in ('bitcoin', 'litecoin'):
+        r0 = random.Random('%d-stale-prev-%s' % (seed, coin))
+        blocks, real = mk_chain(6, coin, r0, ntx_fn=lambda h: 3)
+        for stale_has_data in (True, False):
+            for hx in (2, 4):
+                stale = datadir.mk_block(blocks[hx - 2]['hash'], [btc.coinbase(hx - 1, btc.p2pkh(r0.randbytes(20)), extra=b'stale')], t=1300000000, nonce=77)
+                swapped = datadir.mk_block(stale['hash'], blocks[hx]['txs'], t=1300000600, nonce=78)
+                d = datadir.DataDir(w.sub('dd'), coin)
+                for h, b in enumerate(blocks):
+                    off = d.place(0, swapped['raw'] if h == hx else b['raw'])
+                    d.record(b['hdr'], h, datadir.ACTIVE, len(b['txs']), 0, off)
+                if stale_has_data:
+                    off = d.place(0, stale['raw'])
+                    d.record(stale['hdr'], hx - 1, btc.VALID_TX | btc.HAVE_DATA, 1, 0, off)
+                else:
+                    d.record(stale['hdr'], hx - 1, btc.VALID_TREE, 0)
+                d.core_extras()
+                d.write()
+                st = 0 if real else 1
+                r = run.run_parser(d.path, 'csvdump', dump=w.mk('out'), coin=coin, start=st or None, verify=True)
+                ck.evals()
+                ck.distinct(('stale-prev', coin, stale_has_data, hx))
+                probs = judge(r, False, hx, 'csvdump')
+                if probs:
+                    ck.violation('%s: block at height %d replaced by one that builds on a stale block of height %d known to the index (%s): %s' % (
+                        coin, hx, hx - 1, 'with data' if stale_has_data else 'header only', '; '.join(probs)), {'coin': coin, 'height': hx, 'observed': r.brief(), 'tags': []})
+
     # wrong-coin genesis: the genesis block of another coin at height 0 must be rejected
     for coin, other in (('bitcoin', 'testnet3'), ('litecoin', 'dogecoin'), ('namecoin', 'bitcoin'), ('noteblockchain', 'litecoin')):
         r0 = random.Random('%d-g-%s' % (seed, coin))
